@@ -30,6 +30,12 @@ func VerifC10Partition(h *verifh.H) {
 	hub := server.VerifNewHub(h)
 	runner := vRunner(hub, 2, 2)
 	ents := vEntities(n)
+	if h.Param("repeatIds", 0) == 1 && n >= 2 && h.Choice("repeat", 2) == 1 {
+		// a change feed page can hold several versions of one entity: the last source entity is a
+		// later version of the first (same id, other content); both reach the transform and the sink
+		ents[n-1] = server.NewEntity(ents[0].ID, 0)
+		ents[n-1].Properties["ns0:v"] = "later"
+	}
 	src := &vSource{batches: [][]*server.Entity{ents}, failAt: -1}
 	tr := &vTransform{par: p, mode: mode}
 	if h.Param("sched", 0) == 1 {
